@@ -89,6 +89,12 @@ def names_programs(tier, rng):
             d = dict(DEFAULTS)
             d[slot] = n
             progs.append((f"{slot}={n}", d))
+    # names that are no Python identifiers / no VHDL basic identifiers: only where the name is given as a string
+    for slot in ("sname", "vname"):
+        for n in ("2x", "_", "a-b", "t st", "t\u00e4st", "9", "x_", "__", "a.b", "sig!", "\u03b1"):
+            d = dict(DEFAULTS)
+            d[slot] = n
+            progs.append((f"{slot}={n!r}", d))
     # pairs of slots with colliding / case-variant names
     pairs = [("x", "X"), ("temp", "temp"), ("Temp", "temp"), ("q", "Q"), ("state_0", "STATE_0"), ("proc", "Proc"), ("buffer_o", "o"), ("sig", "sig"), ("foo", "FOO"), ("temp1", "temp")]
     for (s1, s2) in itertools.combinations(SLOTS[:6], 2):
